@@ -415,6 +415,13 @@ _amend("C13", "rule", "non-trivial = >=2 calls", "gRPC-web trailer frames are pa
 _amend("C15", "rule", "Non-trivial", "A third of the muxes carry options (a no-op stats handler, pass-through interceptors), which must not detach the handler's context. Non-trivial")
 _amend("C18", "rule", "Non-trivial", "Streaming shapes on local services draw a send limit that refuses the third or fourth reply (no OutPayload for a refused reply, End carries the error). Non-trivial")
 
+# round 9
+_amend("C02", "rule", "Non-trivial", "One method in eight also lists its implicit route (POST /rt.SvcN/Mth, body *) as a binding of its rule. Non-trivial")
+_amend("C04", "rule", "Non-trivial", "A third of the cases serve one long-lived reply object (a cached asset) after earlier traffic on the same mux (the same download, then an unrelated larger request). Non-trivial")
+_amend("C05", "rule", "Non-trivial", "One failing handler in six also sets trailer metadata under the protocol's own names (grpc-status: 0, grpc-message: all good), which must not reach the client. Non-trivial")
+_amend("C07", "rule", "Non-trivial", "HttpBody uploads (TestPropHTTPBody) bind file.content_type and name in the path against the request's Content-Type and query, unary, client-streaming (RecvMsg or AsHTTPBodyReader) and bidi with an HttpBody reply stream whose handler may open AsHTTPBodyWriter before its first receive. Non-trivial")
+_amend("C13", "rule", "TestPropStress: non-trivial", "TestPropStress also returns one shared reply object of the handler to bursts of three concurrent callers of a rule with response_body (the server may only read it). TestPropStress: non-trivial")
+
 # native coverage-guided fuzzing of the same generators (thorough tier only)
 for _k, _t in (("C01", "FuzzRoute"), ("C03", "FuzzTranscode"), ("C16", "FuzzRegister"), ("C17", "FuzzCodec")):
     PROPS[_k]["fuzz"] = {"target": _t, "seconds": 120}
